@@ -119,7 +119,11 @@ pub fn distinct_fields(y: i32, fr: [u16; 8]) -> [i32; 9] {
     let mut used: Vec<i32> = vec![y];
     let mo = kth_unused(fr[0], 1, 12, &used);
     used.push(mo);
-    let d = kth_unused(fr[1], 1, dim(y as i64, mo as u8) as i32, &used);
+    // one third of the days are among the last three of the month (date arithmetic is only asymmetric there, so a
+    // wrapper that swaps receiver and argument or since/until is only visible there)
+    let dm = dim(y as i64, mo as u8) as i32;
+    let end = dm - (fr[1] / 3 % 3) as i32;
+    let d = if fr[1] % 3 == 0 && !used.contains(&end) { end } else { kth_unused(fr[1], 1, dm, &used) };
     used.push(d);
     let h = kth_unused(fr[2], 0, 23, &used);
     used.push(h);
